@@ -21,6 +21,7 @@ CONSTANTS
   FactoryBuildsTwice = FALSE
   FirstInitErrorSwallowed = FALSE
   RepollAfterComplete = FALSE
+  AndThenFactorySequential = FALSE
 SPECIFICATION TSpec
 POSTCONDITION TraceAccepted
 CHECK_DEADLOCK FALSE
